@@ -22,6 +22,7 @@ import (
 	"fmt"
 	"strings"
 	"sync"
+	"sync/atomic"
 	"time"
 
 	"verifharness/core"
@@ -282,6 +283,7 @@ func Run(ctx *core.Ctx) {
 	}
 	wg.Wait()
 	owg.Wait()
+	ctx.Count("glob_dontcare_names_not_judged", atomic.LoadInt64(&dontCare))
 	if skipped := ctx.Counter("glob_groups_universe_differs") + ctx.Counter("glob_groups_load_rejected") + ctx.Counter("glob_groups_baseline_unparsed"); skipped*10 > int64(ngroups) {
 		ctx.Inconclusive(fmt.Sprintf("%d of %d glob groups could not be judged (unfiltered listing differs from the loaded universe / load rejected)", skipped, ngroups))
 	}
